@@ -72,10 +72,27 @@ fn run(input: RunInput) -> ScenFuture {
         cfg.max_connection_backoff_ms = Some(max_ms);
         cfg.connect_timeout_ms = Some(ct_ms);
         cfg.max_concurrent_outstanding_connecting_connections = Some(cap);
+        // a limit on inbound connections that peers unknown to the table have used up: it governs
+        // the admission of inbound connections (C10) and never holds a background dial back
+        let fillers = w.flag("connection_limit_reached_by_others", 0.3).then(|| w.param("max_concurrent_connections", 1, 2) as usize);
+        cfg.max_concurrent_connections = fillers;
         let mut spec = w.spec(1, cfg.clone());
         spec.jitter = Duration::from_millis(jitter_ms);
         let t_start = w.now_ns();
         let n = w.start_node(spec, Svc::echo(&w)).unwrap();
+        let mut filler_nodes = Vec::new();
+        for k in 0..fillers.unwrap_or(0) {
+            let mut fcfg = base_config(30_000, Some(5_000));
+            fcfg.connect_timeout_ms = Some(ct_ms);
+            let f = w.start_node(w.spec(20 + k as u8, fcfg), Svc::echo(&w)).unwrap();
+            if f.net.connect_with_peer_id(n.addr, n.peer_id).await.is_err() {
+                w.harness_error("filler connect failed");
+            }
+            filler_nodes.push(f);
+        }
+        if fillers.is_some() {
+            w.probe("dialer-at-its-connection-limit");
+        }
         // precise event log of the dialer
         let evlog: Arc<Mutex<Vec<(u64, PeerEvent)>>> = Default::default();
         {
@@ -586,7 +603,7 @@ fn run(input: RunInput) -> ScenFuture {
         w.sample("run", json!({"interval_ms": interval_ms, "jitter_ms": jitter_ms, "backoff_step_ms": step_ms, "max_backoff_ms": max_ms, "connect_timeout_ms": ct_ms, "cap": cap, "ops": ops_log,
             "attempts": attempts.iter().take(20).map(|(t, a)| format!("{} ms -> {a}", t / MS)).collect::<Vec<_>>()}));
         let out = w.finish();
-        drop((n, targets));
+        drop((n, targets, filler_nodes));
         out
     })
 }
